@@ -189,8 +189,11 @@ AUDIT_STATS = {"bfs_runs": 0, "merged_transitions": 0, "merge_audits": 0}
 
 
 def bfs(factory, depth, ctx=None, workers=None, fork=True, max_states=None, observe=False,
-        time_budget=None, label="", audit_every=None, audit_max=400):
+        time_budget=None, label="", audit_every=None, audit_max=400, continue_past=None):
     """Level-synchronous BFS to `depth` with fingerprint de-duplication.
+
+    A state reached by a violating step is not expanded, except when every new violation's signature matches
+    `continue_past` (a regex: the recorded known findings), so that a known defect does not hide what lies behind it.
 
     Merge audit: every `audit_every`-th time a state is merged into an already known fingerprint, both histories
     are expanded one more level and must produce the same children (fingerprints and new violations); a mismatch
@@ -202,6 +205,8 @@ def bfs(factory, depth, ctx=None, workers=None, fork=True, max_states=None, obse
     res = BfsResult()
     if AUDIT_MAX:
         audit_max = AUDIT_MAX
+    import re as _re
+    cont = _re.compile(continue_past) if continue_past else None
     rep = {}            # seen key -> representative history
     audits = []
     merges = 0
@@ -262,8 +267,8 @@ def bfs(factory, depth, ctx=None, workers=None, fork=True, max_states=None, obse
                         seen[key] = level + 1
                         res.states += 1
                         res.max_depth = level + 1
-                        if not viol[pre:]:      # do not expand beyond a violating step
-                            nxt.append((h2, fp))
+                        if not [v for v in viol[pre:] if not (cont and cont.search(v[0]))]:
+                            nxt.append((h2, fp))    # do not expand beyond a (not yet recorded) violating step
             res.levels.append(len(nxt))
             frontier = nxt
             if max_states and res.states > max_states:
